@@ -2,7 +2,7 @@ import AcqVerif.Storage.TiffIo
 /-!
 # I/O skeleton of `acquire-driver-common/src/storage/side-by-side-tiff.cpp`
 (with the repair fixes/15: the composite maintains the inner writer's `state`
-after the inner `set` and `start`, as the HAL does for a top-level device)
+after a successful inner `set` and `start`, as the HAL does for a top-level device)
 and `trash.c`.
 -/
 namespace AcqVerif.Storage
@@ -28,31 +28,43 @@ def sxsSet (os : Os) (s : Sxs) (uri md : Bytes) : Os × Sxs × DeviceState :=
   let s := if offset ≠ 0 then { s with uri := copyString (uri.drop offset) } else s
   (os, s, .armed)
 
+/-- `side_by_side_tiff_start`, step 1: create the folder unless it exists (then it must be a directory) -/
+def sxsFolder (os : Os) (path : Path) : Os × Bool :=
+  if os.exists path then (os, os.dirs path) else sysMkdir os path
+
+/-- step 2: write `metadata.json` (create, write, close; then check the write) -/
+def sxsMetadata (os : Os) (s : Sxs) (path : Path) : Os × Bool :=
+  if s.md.length ≠ 0 then
+    match fileCreate os (path ++ slashMetadataJson) with
+    | (os, none) => (os, false)
+    | (os, some fd) =>
+      match fileWrite os fd 0 (s.md.take (s.md.length - 1)) with
+      | (os, ok) => (fileClose os fd, ok)
+  else (os, true)
+
+/-- step 3: set and start the inner tiff writer on `<path>/data.tif`; the composite records what
+    the inner `set` / `start` returned in the inner device's `state` once the CHECK on it has
+    passed (fixes/15), as the HAL does for a top-level device -/
+def sxsInner (os : Os) (s : Sxs) (path : Path) : Os × Sxs × DeviceState :=
+  let video := path ++ slashDataTif
+  match tiffSet os s.tiff (video ++ [0]) video.length (copyString s.md) with
+  | (os, t, st) =>
+    if st ≠ .armed then (os, { s with tiff := t }, .awaiting) else
+    let t := { t with state := st }                              -- self->tiff->state = state;
+    match tiffStart os t with
+    | (os, t, st) =>
+      if st ≠ .running then (os, { s with tiff := t }, .awaiting) else
+      (os, { s with tiff := { t with state := st } }, .running)  -- self->tiff->state = state;
+
 /-- `side_by_side_tiff_start` -/
 def sxsStart (os : Os) (s : Sxs) : Os × Sxs × DeviceState :=
   let path := s.uri.take (s.uri.length - 1)                    -- as_path
-  -- 1. create folder
-  let (os, okDir) := if os.exists path then (os, os.dirs path) else sysMkdir os path
-  if !okDir then (os, s, .awaiting) else
-  -- 2. write metadata.json
-  let (os, okMeta) :=
-    if s.md.length ≠ 0 then
-      match fileCreate os (path ++ slashMetadataJson) with
-      | (os, none) => (os, false)
-      | (os, some fd) =>
-        let (os, ok) := fileWrite os fd 0 (s.md.take (s.md.length - 1))
-        (fileClose os fd, ok)
-    else (os, true)
-  if !okMeta then (os, s, .awaiting) else
-  -- 3. set/start tiff writer
-  let video := path ++ slashDataTif
-  let (os, t, st) := tiffSet os s.tiff (video ++ [0]) video.length (copyString s.md)
-  let s := { s with tiff := { t with state := st } }           -- fixes/15
-  if st ≠ .armed then (os, s, .awaiting) else
-  let (os, t, st) := tiffStart os s.tiff
-  let s := { s with tiff := { t with state := st } }           -- fixes/15
-  if st ≠ .running then (os, s, .awaiting) else
-  (os, s, .running)
+  match sxsFolder os path with
+  | (os, false) => (os, s, .awaiting)
+  | (os, true) =>
+    match sxsMetadata os s path with
+    | (os, false) => (os, s, .awaiting)
+    | (os, true) => sxsInner os s path
 
 /-- `side_by_side_tiff_stop` (`tiff_stop` always returns Armed) -/
 def sxsStop (os : Os) (s : Sxs) : Os × Sxs × DeviceState :=
